@@ -125,14 +125,21 @@ theorem cosineOf_real (d : ℝ) :
     cosineOf d = if -1 < d ∧ d < 1 then Real.cos (Real.pi / 2 * d) else 0 := by
   by_cases h1 : d < 1 <;> by_cases h2 : -1 < d <;> simp [cosineOf, mask, h1, h2]
 
-theorem smoothFiniteOf_real (sfc d : ℝ) :
-    smoothFiniteOf sfc d = sfc * expNegInvGlue (d + 1) * expNegInvGlue (1 - d) := by
-  simp [smoothFiniteOf, softUnitStep_eq_glue]
+theorem smoothFiniteWith_real (sfc d : ℝ) :
+    smoothFiniteWith sfc d = sfc * expNegInvGlue (d + 1) * expNegInvGlue (1 - d) := by
+  simp [smoothFiniteWith, softUnitStep_eq_glue]
+
+theorem smoothFiniteConst_real : (smoothFiniteConst : ℝ) = 114136 / 100000 * Real.exp 2 := by
+  simp [smoothFiniteConst, ofFrac_real]
+
+theorem smoothFiniteOf_real (d : ℝ) :
+    smoothFiniteOf d = 114136 / 100000 * Real.exp 2 * expNegInvGlue (d + 1) * expNegInvGlue (1 - d) := by
+  rw [smoothFiniteOf, smoothFiniteWith_real, smoothFiniteConst_real]
 
 theorem cosineOf_eq_zero {d : ℝ} (h : d ≤ -1 ∨ 1 ≤ d) : cosineOf d = 0 := by
   rw [cosineOf_real, if_neg]; rintro ⟨h1, h2⟩; rcases h with h | h <;> linarith
 
-theorem smoothFiniteOf_eq_zero (sfc : ℝ) {d : ℝ} (h : d ≤ -1 ∨ 1 ≤ d) : smoothFiniteOf sfc d = 0 := by
+theorem smoothFiniteOf_eq_zero {d : ℝ} (h : d ≤ -1 ∨ 1 ≤ d) : smoothFiniteOf d = 0 := by
   rw [smoothFiniteOf_real]
   rcases h with h | h
   · rw [expNegInvGlue.zero_of_nonpos (by linarith)]; ring
@@ -236,8 +243,8 @@ theorem contDiff_softUnitStep : ContDiff ℝ ∞ (softUnitStep : ℝ → ℝ) :=
   rw [softUnitStep_fun_eq]; exact expNegInvGlue.contDiff
 
 /-- one smooth_finite bump as a function of `x`, centre `c`, width `s` -/
-theorem contDiff_smoothFinite_bump (sfc c s : ℝ) :
-    ContDiff ℝ ∞ (fun x : ℝ => smoothFiniteOf sfc ((x - c) / s)) := by
+theorem contDiff_smoothFinite_bump (c s : ℝ) :
+    ContDiff ℝ ∞ (fun x : ℝ => smoothFiniteOf ((x - c) / s)) := by
   simp only [smoothFiniteOf_real]
   have h1 : ContDiff ℝ ∞ (fun x : ℝ => (x - c) / s + 1) := by fun_prop
   have h2 : ContDiff ℝ ∞ (fun x : ℝ => 1 - (x - c) / s) := by fun_prop
@@ -247,9 +254,10 @@ theorem softUnitStepGrad_zero : softUnitStepGrad (0 : ℝ) = 0 := by
   rw [softUnitStepGrad_real]; simp
 
 /-- at the two edges of its support a bump has derivative 0 -/
-theorem hasDerivAt_smoothFinite_bump_edge (sfc c s : ℝ) (hs : s ≠ 0) (x₀ : ℝ)
+theorem hasDerivAt_smoothFinite_bump_edge (c s : ℝ) (hs : s ≠ 0) (x₀ : ℝ)
     (hx : x₀ = c + s ∨ x₀ = c - s) :
-    HasDerivAt (fun x : ℝ => smoothFiniteOf sfc ((x - c) / s)) 0 x₀ := by
+    HasDerivAt (fun x : ℝ => smoothFiniteOf ((x - c) / s)) 0 x₀ := by
+  set sfc : ℝ := smoothFiniteConst with hsfc
   have hA : HasDerivAt (fun x : ℝ => (x - c) / s + 1) (1 / s) x₀ := by
     have := ((hasDerivAt_id x₀).sub_const c).div_const s
     simpa using this.add_const 1
@@ -259,10 +267,10 @@ theorem hasDerivAt_smoothFinite_bump_edge (sfc c s : ℝ) (hs : s ≠ 0) (x₀ :
   have hSA := (hasDerivAt_softUnitStep ((x₀ - c) / s + 1)).comp x₀ hA
   have hSB := (hasDerivAt_softUnitStep (1 - (x₀ - c) / s)).comp x₀ hB
   have hprod := ((hasDerivAt_const x₀ sfc).mul hSA).mul hSB
-  have hfun : (fun x : ℝ => smoothFiniteOf sfc ((x - c) / s))
+  have hfun : (fun x : ℝ => smoothFiniteOf ((x - c) / s))
       = ((fun _ => sfc) * (softUnitStep ∘ fun x : ℝ => (x - c) / s + 1)) *
           (softUnitStep ∘ fun x : ℝ => 1 - (x - c) / s) := by
-    funext x; simp [smoothFiniteOf]
+    funext x; simp [smoothFiniteOf, smoothFiniteWith, hsfc]
   rw [hfun]
   refine hprod.congr_deriv ?_
   rcases hx with rfl | rfl
